@@ -63,6 +63,9 @@ def b_stress(ch):
     regions = {
         'R1': ('*', ('*', -1, -4), -5), 'R2': ('*', 2, -3), 'R2b': ('*', 12, -3), 'R3': -6, 'R4': -8,
         'R5': -9, 'R6': -10, 'R7': ('*', -2, 4), 'R8': ('*', 1, ('*', -4, 5)),
+        # unions with a member that is empty only after de-duplication (gap between two numbers of one plane)
+        'R9': (':', ('*', -1, ('*', -4, 5)), ('*', 2, -12)),
+        'R10': (':', ('*', 12, -1), (':', ('*', 1, ('*', 4, -5)), ('*', 2, -1))),
     }
     order = ch.choose('regions', [
         ['R1', 'R2', 'R3', 'R4', 'R5', 'R6', 'R7', 'R8'],
@@ -71,6 +74,8 @@ def b_stress(ch):
         ['R5', 'R6', 'R2b', 'R2'],
         ['R6', 'R5', 'R4', 'R3', 'R8', 'R7', 'R2b', 'R1'],
         ['R2b', 'R7', 'R1', 'R5'],
+        ['R9', 'R10', 'R3'],
+        ['R10', 'R9', 'R7', 'R5'],
     ])
     prev = []
     mats = [(1, '-2.7'), (2, '-1.0'), (0, None), (1, '-2.70')]
